@@ -548,8 +548,12 @@ def api_oracle(trace):
             else:
                 want_ok = registered and b"\x00" not in tb
             if want_ok != ("ok" in obs):
+                # a registration that arrived through import speaks about C20's "same usable contexts" too
+                via_import = any(x["op"].get("op") == "import" and isinstance(x["op"].get("frame"), dict)
+                                 and x["op"]["frame"].get("id") == op["ctx"] for x in trace[:i])
                 fails.append({"i": i, "why": "append %s but context registered=%s (by the stored frames)" % (
-                    "accepted" if "ok" in obs else "rejected:" + obs.get("err", ""), registered), "props": ["C07"]})
+                    "accepted" if "ok" in obs else "rejected:" + obs.get("err", ""), registered),
+                    "props": ["C07", "C20"] if via_import else ["C07"]})
             if "ok" in obs and tb == XSCTX.encode() and obs["ok"].get("ttl") != "forever":
                 fails.append({"i": i, "why": "xs.context frame not kept forever", "props": ["C07"]})
             if "err" in obs and e.get("dump") is not None and canon_dump(e["dump"]) != canon_dump(pre):
